@@ -6,18 +6,8 @@ int _tokenizerlex(yyscan_t yyscanner);
 #include "lex._tokenizer.c"
 
 #ifndef VX_USE_REAL
-#ifdef VX_FLAT
-#include "vx_next.h"
-#endif
-static const struct { int tok; int push; int pop; } vx_act[] = {
-  {0,0,0},
-  {TOKEN_COMMENTBEG, COMMENT, 0}, {TOKEN_COMMENTEND, 0, 1}, {TOKEN_COMMENTSTR,0,0},
-  {TOKEN_LITERALBEG, LITERAL, 0}, {TOKEN_LITERALEND, 0, 1}, {TOKEN_LITERALSTR,0,0},
-  {TOKEN_COMMENT,0,0},{TOKEN_DIRECTIVE,0,0},{TOKEN_INTEGER,0,0},{TOKEN_HEXANUM,0,0},{TOKEN_DOUBLE,0,0},{TOKEN_FLOAT,0,0},{TOKEN_SPACE,0,0},
-  {TOKEN_ISEQUAL,0,0},{TOKEN_ISEQMORE,0,0},{TOKEN_ISEQLESS,0,0},{TOKEN_ISNOTEQ,0,0},{TOKEN_ISNOTEQ,0,0},{TOKEN_ASSIGN,0,0},{TOKEN_POPLEFT,0,0},{TOKEN_PUSHRIGHT,0,0},
-  {TOKEN_INCREMENT,0,0},{TOKEN_DECREMENT,0,0},{TOKEN_POWER,0,0},{TOKEN_AND,0,0},{TOKEN_OR,0,0},{TOKEN_KEYWORD,0,0},
-  {-28,0,0},{-29,0,0}
-};
+#include "dfa_tables.h"      /* generated from the current lex._tokenizer.c: vx_next (uncompressed), act_tab (rule -> token, push, pop) */
+#define vx_act act_tab
 int _tokenizerlex(yyscan_t yyscanner)
 {
   struct yyguts_t * yyg = (struct yyguts_t*)yyscanner;
